@@ -1038,21 +1038,54 @@ def _setness(v):
     return None
 
 
+def _opaque(v):
+    """not a collection whose kind (set / duplicate-keeping sequence) is understood: a helper method that could not be followed, a
+    loop-carried local, .. -- nothing is known about it"""
+    return _setness(v) is None
+
+
 def _r9(ctx, pkg):
     fn, fl, rets = species_order(pkg)
     ctx.saw(NETF, "Network.species")
     found = "; ".join(show(simp(f.value))[:100] for f, _, _ in rets)
-    # the value handed out is sorted(.., key=K) with K total
-    ok = bool(rets) and all(bool(layers) and layers[0] is not None and _total_key(layers[0]) for _, layers, _ in rets)
-    ctx.check(ok, "R9", "Network.species:total order", (NETF, fn.lineno),
-              "species are ordered by sorted(.., key=(connectivity, species)): ties are broken by the species' own order, so the order does not depend on set iteration" if ok else
-              "the species order is not a total order (no tie-break by the species itself): slots depend on set iteration order, which varies with the hash seed -- "
-              "artefacts rendered in different processes (macro header vs patch tables) disagree",
-              expected="sorted(speclist, key=lambda x: (len(connection[x]), x))", found=found)
+    if not rets:
+        ctx.unrec("R9", "Network.species:total order", (NETF, fn.lineno), "Network.species has no return statement")
+        return
+    # the value handed out is sorted(.., key=K) with K total.  VIOLATION only for a key (or an unsorted collection) that is understood
+    verdicts = []
+    for f, layers, members in rets:
+        if layers and layers[0] is not None and layers[0][0] == "lambda":
+            verdicts.append("ok" if _total_key(layers[0]) else "bad")
+        elif layers and layers[0] is not None:
+            verdicts.append("unrec")                # a key function that is not defined here
+        elif layers:
+            verdicts.append("bad")                  # sorted(..) without the connectivity / species key
+        else:
+            verdicts.append("unrec" if _opaque(members) else "bad")
+    key = "Network.species:total order"
+    if "bad" not in verdicts and "unrec" in verdicts:
+        ctx.unrec("R9", key, (NETF, fn.lineno), f"what Network.species returns is not understood: {found}")
+    else:
+        ok = "bad" not in verdicts
+        ctx.check(ok, "R9", key, (NETF, fn.lineno),
+                  "species are ordered by sorted(.., key=(connectivity, species)): ties are broken by the species' own order, so the order does not depend on set iteration" if ok else
+                  "the species order is not a total order (no tie-break by the species itself): slots depend on set iteration order, which varies with the hash seed -- "
+                  "artefacts rendered in different processes (macro header vs patch tables) disagree",
+                  expected="sorted(speclist, key=lambda x: (len(connection[x]), x))", found=found)
     # the unordered inputs are sorted before anything iterates them: what the final sort receives is itself a sorted(..) of the sets
-    first_ok = bool(rets) and all(len(layers) >= 2 and _total_key(layers[1]) for _, layers, _ in rets)
-    ctx.check(first_ok, "R9", "Network.species:sorted input", (NETF, rets[0][0].line if rets else fn.lineno), "the union of the reactant/product/required sets is sorted before use",
-              found="; ".join(show(m)[:100] for _, _, m in rets))
+    verdicts = []
+    for f, layers, members in rets:
+        if len(layers) >= 2:
+            verdicts.append("ok" if _total_key(layers[1]) else "bad" if layers[1][0] == "lambda" else "unrec")
+        else:
+            verdicts.append("unrec" if _opaque(members) else "bad")
+    key = "Network.species:sorted input"
+    where = (NETF, rets[0][0].line)
+    if "bad" not in verdicts and "unrec" in verdicts:
+        ctx.unrec("R9", key, where, "what the final sort of Network.species receives is not understood: " + "; ".join(show(m)[:100] for _, _, m in rets))
+    else:
+        ctx.check("bad" not in verdicts, "R9", key, where, "the union of the reactant/product/required sets is sorted before use",
+                  found="; ".join(show(m)[:100] for _, _, m in rets))
     # ... and what is sorted is a SET of species: two entries that are equal (one species spelled twice, e- / E) are one member
     for f, layers, members in rets[:1]:
         kind = _setness(members) if layers else None
